@@ -200,6 +200,21 @@ class ChildrenList(list):
         node._parent = None
         node._has_constructor_parent = False
 
+    def _positive_index(self, index):
+        '''
+        Converts a list index that may be negative (i.e. counted from the
+        end of the list, as in any Python list) into the equivalent
+        position counted from the start of the list.
+
+        :param int index: the index provided to a list operation.
+
+        :returns: the same location given as a non-negative position (it \
+            is still negative if the index is before the start of the list).
+        :rtype: int
+
+        '''
+        return index if index >= 0 else len(self) + index
+
     def append(self, item):
         ''' Extends list append method with children node validation.
 
@@ -221,7 +236,7 @@ class ChildrenList(list):
         :type item: :py:class:`psyclone.psyir.nodes.Node`
 
         '''
-        self._validate_item(index, item)
+        self._validate_item(self._positive_index(index), item)
         self._check_is_orphan(item)
         self._del_parent_link(self[index])
         super().__setitem__(index, item)
@@ -236,7 +251,9 @@ class ChildrenList(list):
         :type item: :py:class:`psyclone.psyir.nodes.Node`
 
         '''
-        positiveindex = index if index >= 0 else len(self) - index
+        # As for any Python list, an index beyond either end of the list
+        # inserts the item at that end.
+        positiveindex = min(max(self._positive_index(index), 0), len(self))
         self._validate_item(positiveindex, item)
         self._check_is_orphan(item)
         # Check that all displaced items will still in valid positions
@@ -269,10 +286,12 @@ class ChildrenList(list):
         :param int index: position where to insert the item.
 
         '''
-        positiveindex = index if index >= 0 else len(self) - index
+        # This raises an IndexError if the index is out of range
+        item = self[index]
+        positiveindex = self._positive_index(index)
         for position in range(positiveindex + 1, len(self)):
             self._validate_item(position - 1, self[position])
-        self._del_parent_link(self[index])
+        self._del_parent_link(item)
         super().__delitem__(index)
         self._node_reference.update_signal()
 
@@ -299,11 +318,13 @@ class ChildrenList(list):
         :rtype: :py:class:`psyclone.psyir.nodes.Node`
 
         '''
-        positiveindex = index if index >= 0 else len(self) - index
+        # This raises an IndexError if the index is out of range
+        item = self[index]
+        positiveindex = self._positive_index(index)
         # Check if displaced items after 'positiveindex' will still be valid
         for position in range(positiveindex + 1, len(self)):
             self._validate_item(position - 1, self[position])
-        self._del_parent_link(self[index])
+        self._del_parent_link(item)
         obj = super().pop(index)
         self._node_reference.update_signal()
         return obj
